@@ -39,6 +39,11 @@ func vfValidShape(tag string, mode int) LogPredicate {
 		vfAssume(!p.LogValueRef.Dynamic)
 	case 2: // dynamic data references only
 		vfAssume(p.LogValueRef.Dynamic)
+	case 3: // equality predicates on topics only (what the eth_getLogs filter is derived from)
+		vfAssume(!p.LogValueRef.Dynamic && p.LogValueRef.Offset < 4)
+		p.ValuePredicate.Op = BytesEq
+		p.ValuePredicate.ByteArgs = [][]byte{vfBytesN(tag+".topicarg", 32)}
+		return p
 	}
 	if vfBool(tag + ".bytes-op") {
 		p.ValuePredicate.Op = BytesEq
